@@ -1078,3 +1078,13 @@ Proof.
   destruct (G (combine (seq 0 (length pts)) pts) (gen__reset g) [] (gwf_reset g) (tne_reset g)) as [_ Ht].
   destruct (fold_left _ _ _) as [g' buf']. cbn [fst] in Ht. destruct g'. exact Ht.
 Qed.
+
+(* Index.empty *)
+Theorem gen_empty_eq g : tne (_tags g) -> gen_empty g = ix_is_empty (abs g).
+Proof.
+  intros Ht. unfold gen_empty, ix_is_empty, abs. cbn [ix_n ix_tags ix_fields ix_meas ix_ts]. unfold abs_meas. rewrite negb_involutive.
+  destruct (Nat.eqb (_num_items g) 0); cbn [andb]; [| reflexivity].
+  destruct (_tags g) as [|[k inner] t] eqn:E.
+  - cbn [nonempty_list negb andb flat_tags flat_map]. destruct (_fields g); destruct (_measurements g); destruct (_timestamps g); reflexivity.
+  - destruct inner as [|[v b] inner']; [exfalso; apply (Ht k []); [left; reflexivity | reflexivity]|]. reflexivity.
+Qed.
